@@ -210,6 +210,7 @@ struct World {
             } else if (http->out.offset >= clen)
                 return true; // clientReplyStatus(): the whole object has been sent
             if (round > 0 && !len) return false; // store hit the end of the object without the stream completing
+            if (base && !request->range) return false; // a 200 for an object that is not materialised: headers only
             off = stream->getNextRangeOffset(); // pullData()
             vf_assert(off >= 0 && off <= clen, "pullData() asks for an offset inside the object");
         }
@@ -377,14 +378,14 @@ static ReqSpec symbolicSpec(const int64_t base, const unsigned hi)
     }
     return s;
 }
-static void rangeResponse(const int64_t base, const unsigned nspecs, const unsigned winLo, const unsigned winHi, const unsigned numHi, const unsigned maxBuf)
+static void rangeResponse(const int64_t base, const unsigned nspecs, const unsigned winLo, const unsigned winHi, const unsigned numHi, const unsigned maxBuf, const unsigned nLimits = 3)
 {
     World w;
     const unsigned winLen = (unsigned)vf_concretize(vf_range(winLo, winHi, "objectLen"));
     // cached or not; range_offset_limit for this request: 0 (default: misses are not served partially), none (-1), or a
     // limit equal to the window start (first offsets up to it are fetched whole)
     const bool hit = vf_concretize(vf_range(0, 1, "hit"));
-    const unsigned lim = hit ? 0 : (unsigned)vf_concretize(vf_range(0, 2, "offsetLimit"));
+    const unsigned lim = hit ? 0 : nLimits == 1 ? 1 : (unsigned)vf_concretize(vf_range(0, nLimits - 1, "offsetLimit"));
     w.setup(base, winLen, hit, lim == 0 ? 0 : lim == 1 ? -1 : base + 1);
     ReqSpec specs[2];
     for (unsigned i = 0; i < nspecs; ++i) { specs[i] = symbolicSpec(base, numHi); w.addSpec(specs[i]); }
@@ -399,18 +400,25 @@ static void rangeResponse(const int64_t base, const unsigned nspecs, const unsig
 }
 #ifdef VF_THOROUGH
 extern "C" void c15_single(void) { rangeResponse(0, 1, 1, 6, 7, 3); }
-extern "C" void c15_multi(void) { rangeResponse(0, 2, 5, 5, 6, 3); }
+extern "C" void c15_multi(void) { rangeResponse(0, 2, 5, 5, 5, 3); }
 #else
 extern "C" void c15_single(void) { rangeResponse(0, 1, 1, 5, 6, 3); }
-extern "C" void c15_multi(void) { rangeResponse(0, 2, 4, 4, 4, 2); }
+extern "C" void c15_multi(void) { rangeResponse(0, 2, 4, 4, 3, 2, 1); }
 #endif
 // offsets around 2^31, 2^32 and beyond: the window is the last 4 bytes of the object
 extern "C" void c15_big(void)
 {
+#ifdef VF_THOROUGH
     static const int64_t bases[4] = {(1LL << 31) - 2, (1LL << 32) - 2, (1LL << 32) + 4094, (1LL << 62) - 4};
     const int64_t base = bases[vf_concretize(vf_range(0, 3, "base"))];
     const unsigned n = (unsigned)vf_concretize(vf_range(1, 2, "nspecs"));
     rangeResponse(base, n, 4, 4, 4, 3);
+#else
+    static const int64_t bases[3] = {(1LL << 31) - 2, (1LL << 32) - 2, (1LL << 62) - 4};
+    const int64_t base = bases[vf_concretize(vf_range(0, 2, "base"))];
+    const unsigned n = (unsigned)vf_concretize(vf_range(1, 2, "nspecs"));
+    rangeResponse(base, n, 4, 4, 3, 4, 2);
+#endif
 }
 
 // ---- arithmetic kernel with fully symbolic positions: one canonical spec, up to 3 buffers
